@@ -69,7 +69,7 @@ pub fn run(out: &mut Out, v: &Vocab, e: &str, shard: u64, nshards: u64, start: u
 /// nested brackets, chains of prefix signs and postfix operators, nested calls of every function class, long operator chains of
 /// every level, long argument lists, long literals and superscript runs, juxtaposition chains.  The call must return (no stack
 /// overflow, no panic) within the step budget; the recorded step counts are validated against the specification (CalcTrace).
-pub fn deep_shapes(out: &mut Out, v: &Vocab, e: &str) {
+pub fn deep_shapes(out: &mut Out, v: &Vocab, e: &str, thread_stack: usize, cur_file: Option<String>, start: u64) {
     let mut inputs: Vec<String> = Vec::new();
     let lit = if e == "cpx" { "2i" } else { "2" };
     let has_kind = |k: &str| v.has_kind(e, k);
@@ -120,10 +120,29 @@ pub fn deep_shapes(out: &mut Out, v: &Vocab, e: &str) {
     inputs.push(format!("@{}", "*@".repeat(127)));
     let ph = default_placeholder(e);
     for (i, inp) in inputs.iter().enumerate() {
+        if (i as u64) < start { continue; }                  // resumed after an item that killed the process
         out.heartbeat(i as u64);
         out.stats.items += 1;
         if inp.chars().count() > 256 { continue; }
-        let ctx = json!({"construct": "deep shape", "chars": inp.chars().count()});
+        let ctx = json!({"construct": "deep shape", "chars": inp.chars().count(), "thread_stack": thread_stack});
+        if thread_stack > 0 {
+            // on a thread of its own with the given stack (std's default for spawned threads is 2 MiB): a stack overflow aborts this
+            // process; the supervisor attributes the death to this item and resumes after it
+            if let Some(f) = &cur_file { let _ = std::fs::write(f, inp); }          // so that an abort can be attributed to this input
+            let (e2, inp2, ph2) = (e.to_string(), inp.clone(), ph.clone());
+            let h = std::thread::Builder::new().stack_size(thread_stack).spawn(move || crate::call::call(&e2, &inp2, &ph2)).expect("spawn");
+            let (o, t) = h.join().expect("the call catches panics");
+            out.stats.calls += 1;
+            out.note_ticks(inp, &t);
+            let key = crate::engine::h64(&(e, inp, "stack"));
+            out.stats.distinct.insert(key); out.stats.nontrivial.insert(key);
+            match &o {
+                crate::val::Outcome::Panic(m) => out.finding("panic", e, inp, &ph, "Ok or Err", &format!("PANIC({})", m), ctx.clone()),
+                crate::val::Outcome::Budget => out.finding("budget", e, inp, &ph, "steps <= 4096+256*len", "step budget exceeded", ctx.clone()),
+                _ => {}
+            }
+            continue;
+        }
         let o = checked_call(out, e, inp, &ph, None, json!({"v": "unclaimed"}), true, &ctx);
         if out.stats.samples.len() < 6 && i % 37 == 5 { out.stats.samples.push(json!({"e": e, "input": inp, "outcome": o.show()})); }
     }
